@@ -213,11 +213,12 @@ def operator(mult=None, tables=False, retable=False, exact=False):
         "chtable": st.tuples(st.just("chtable"), idx, st.sampled_from(["private", "private", "public"])).map(list),
         "again": st.tuples(st.just("again"), idx).map(list),
         "copy": st.tuples(st.just("copy"), idx, name(), density()).map(list),
+        "clone": st.tuples(st.just("clone"), idx, st.sampled_from(["copy", "deepcopy", "pickle"])).map(list),
         "add": st.tuples(st.just("add"), idx, idx).map(list),
         "mul": st.tuples(st.just("mul"), n, idx).map(list),
         "iadd": st.tuples(st.just("iadd"), idx, idx).map(list),
     }
-    kinds = ["chtable"] * 2 + ["again"] + ["copy"] * 2 + ["add"] * 3 + ["mul"] * 4 + ["iadd"] * 4
+    kinds = ["chtable"] * 2 + ["again"] + ["copy"] * 2 + ["clone"] * 2 + ["add"] * 3 + ["mul"] * 4 + ["iadd"] * 4
     if retable:
         alt["retable"] = st.tuples(st.just("retable"), st.integers(0, 4)).map(list)
         kinds = kinds + ["retable"] * 2
@@ -229,6 +230,8 @@ def _operator(mult=None):
     n = mult if mult is not None else number(zero=True)
     return st.one_of(
         st.tuples(st.just("copy"), idx, name(), density()).map(list),
+        # a Formula that went through copy.copy / copy.deepcopy / a pickle round trip is a formula in its own right
+        st.tuples(st.just("clone"), idx, st.sampled_from(["copy", "deepcopy", "pickle"])).map(list),
         st.tuples(st.just("add"), idx, idx).map(list),
         st.tuples(st.just("add"), idx, idx).map(list),
         st.tuples(st.just("mul"), n, idx).map(list),
@@ -384,7 +387,7 @@ def _interpret(E, ops, observer, before, mag, vars_, flags, skipped, ctor_ops, s
         st_.index, st_.op, st_.kind = index, op, kind
         st_.new = st_.changed = None
         st_.operands, st_.inputs, st_.flags = [], None, flags
-        if kind in ("copy", "add", "mul", "iadd", "chtable", "retable") and not vars_:
+        if kind in ("copy", "clone", "add", "mul", "iadd", "chtable", "retable") and not vars_:
             skipped += 1
             continue
         n = len(vars_)
@@ -481,6 +484,15 @@ def _interpret(E, ops, observer, before, mag, vars_, flags, skipped, ctor_ops, s
             f = formula(a.f, **kw)
             st_.operands = [op[1] % n]
             v = Var(f, dict(a.comp), "copy", a.table)
+            v.exact = a.exact
+        elif kind == "clone":
+            import copy as _copy
+            import pickle as _pickle
+            a = vars_[op[1] % n]
+            f = {"copy": _copy.copy, "deepcopy": _copy.deepcopy,
+                 "pickle": lambda x: _pickle.loads(_pickle.dumps(x))}[op[2]](a.f)
+            st_.operands = [op[1] % n]
+            v = Var(f, dict(a.comp), "clone", a.table)
             v.exact = a.exact
         elif kind == "add":
             f = a.f + b.f
